@@ -83,6 +83,20 @@ def check_run(ctx, case, data, tmpdir, res, expected, what="sched"):
                 ctx.violation(key, dict(w, observer=o.vf_name, got=lines[:12], expected=exp_lines[:12]))
                 return False
             ctx.count("messages_checked", len(lines))
+        elif kind == "command":
+            import os
+
+            names = os.listdir(o.vf_dir)
+            if len(names) != len(expected):
+                ctx.violation("observer-lost-detection" if len(names) < len(expected) else "observer-got-extra-detection",
+                              dict(w, observer=o.vf_name, commands_run=len(names), expected_count=len(expected)))
+                return False
+            want = sorted(b for _, _, _, b in expected)
+            got = sorted(P.wav_read(os.path.join(o.vf_dir, n_))[0] for n_ in names)
+            if got != want:
+                ctx.violation("observer-detection-content-differs", dict(w, observer=o.vf_name))
+                return False
+            ctx.count("messages_checked", len(names))
         elif kind == "regionsaver":
             import os
 
@@ -176,6 +190,44 @@ def systematic(ctx, conf, tmpdir):
             ctx.count("systematic_pipelines_fully_enumerated")
 
 
+def marathons(ctx, tmpdir):
+    """(a) more than a thousand queue-wait timeouts in a row on idle observers before the stream moves on;
+       (b) one run with more than 10000 detections."""
+    from ..sched import strategies as SS
+
+    rng = ctx.rng("marathon")
+    # (a)
+    case = P.small_pipeline_case(rng, 5, ["rec", "joiner"], False)
+    built = AC.build_audio(case)
+    if built is not None:
+        data, _ = built
+        P.clean_dir(tmpdir)
+        expected = P.split_reference(data, case)
+        strat = SS.Marathon(rng.getrandbits(32), 1300)
+        case["strategy"] = "marathon(1300 consecutive timeouts)"
+        res = P.run_pipeline(case, data, tmpdir, strategy=strat)
+        ctx.count("timeout_marathon_runs")
+        ctx.maxi("timeouts_fired_in_one_run", res.sched.timeouts_fired)
+        ctx.count("timeouts_fired", res.sched.timeouts_fired)
+        ctx.case(stable_hash(["marathon", res.sched.steps, res.sched.timeouts_fired]), bool(expected))
+        check_run(ctx, case, data, tmpdir, res, expected)
+    # (b)
+    case = P.small_pipeline_case(rng, 4, ["rec"], False)
+    n = 10100 + rng.randint(0, 400)
+    case.update(block=1, w=1 / 8, rate=8, width=1, channels=1, thr=20.0, min_len=1, max_len=1, max_sil=0, partial=0)
+    case["v"] = [1] * n
+    built = AC.build_audio(case)
+    if built is not None:
+        data, _ = built
+        P.clean_dir(tmpdir)
+        expected = P.split_reference(data, case)
+        case["strategy"] = "sticky"
+        res = P.run_pipeline(case, data, tmpdir, strategy=SS.Sticky(rng.getrandbits(32), timeout_budget=3, p=0.9))
+        ctx.count("runs_with_more_than_10000_detections")
+        ctx.case(stable_hash(["many-detections", n, res.sched.steps]), True)
+        check_run(ctx, dict(case, v=[1, 1, 1], note=f"{n} windows, each one a detection"), data, tmpdir, res, expected)
+
+
 def stress(ctx, conf, tmpdir):
     from ..sched import stress as ST
 
@@ -233,6 +285,11 @@ def run_shard(ctx):
                 # a blocking wait (timeout=None) is a legal queue timeout
                 case["observer_timeouts"] = [None if (i + k) % 2 else t for k, t in enumerate(case["observer_timeouts"])]
                 ctx.count("runs_with_blocking_observer_waits")
+            if i % 9 == 5:
+                case["observers"] = list(case["observers"]) + ["command"]
+                case["observer_timeouts"] = list(case["observer_timeouts"]) + [0.2]
+                case["v"] = case["v"][:14]  # every detection costs a shell
+                ctx.count("runs_with_a_command_observer")
             if i % 6 == 2 and case["observers"]:
                 # one observer dies while processing a message: the healthy ones must still get everything and all threads end
                 k = rng.randrange(len(case["observers"]) + 1)
@@ -249,6 +306,8 @@ def run_shard(ctx):
             if ctx.out_of_time():
                 break
         systematic(ctx, conf, tmpdir)
+        if ctx.shard == 2 or (ctx.tier == "thorough" and ctx.shard < 6):
+            marathons(ctx, tmpdir)
         stress(ctx, conf, tmpdir)
     finally:
         shutil.rmtree(tmpdir, ignore_errors=True)
@@ -266,7 +325,7 @@ def inconclusive(merged, tier):
     c = merged["counters"]
     need = ["scheduled_runs", "messages_checked", "timeouts_fired", "context_switches", "line_mode_runs", "line_preemptions",
             "stress_runs", "stress_messages_checked", "systematic_schedules", "systematic_pipelines_fully_enumerated", "observers_checked_rec", "observers_checked_print",
-            "observers_checked_regionsaver", "observers_checked_joiner", "runs_with_stream_saver", "runs_with_long_bursts_of_detections", "runs_with_a_logger", "observers_that_died_mid_stream", "runs_with_a_failing_close", "runs_started_tokenizer_first", "runs_with_blocking_observer_waits"] + ["strategy_" + s for s in P.S.NAMES]
+            "observers_checked_regionsaver", "observers_checked_joiner", "runs_with_stream_saver", "runs_with_long_bursts_of_detections", "runs_with_a_logger", "observers_that_died_mid_stream", "runs_with_a_failing_close", "runs_started_tokenizer_first", "runs_with_blocking_observer_waits", "runs_with_a_command_observer", "timeout_marathon_runs", "runs_with_more_than_10000_detections"] + ["strategy_" + s for s in P.S.NAMES]
     out = [f"monitor never observed {k}" for k in need if c.get(k, 0) == 0]
     if c.get("inconclusive_runs", 0) > max(3, c.get("scheduled_runs", 0) // 50):
         out.append(f"{c['inconclusive_runs']} runs hit a step/wall cap")
